@@ -314,6 +314,9 @@ pub struct MsgSpec {
     /// liveness probe: a well-formed request from a client with a reservation
     #[serde(default)]
     pub must_answer: bool,
+    /// RFC 3396: send every option value of two or more octets as two instances
+    #[serde(default)]
+    pub split_opts: bool,
 }
 
 #[derive(Clone, Debug, Serialize, Deserialize)]
@@ -457,13 +460,14 @@ pub fn gen_config(r: &mut Rng, lans: &[Lan], clients: &[ClientSpec], allow_polic
     let mut addresses = vec![];
     let mut policies = vec![];
     for (li, lan) in lans.iter().enumerate() {
-        let style = if allow_policies { r.below(4) } else { 0 };
+        let style = if allow_policies { if r.chance(0.05) { 9 } else { r.below(4) } } else { 0 };
         let net = Ipv4Addr::from(lan.network());
         let written = if r.chance(0.3) { lan.server_ip } else { net };
         let hs: Vec<u32> = hosts(lan.network(), lan.plen).into_iter().collect();
         let lan_clients: Vec<&ClientSpec> = clients.iter().filter(|c| c.lan == li && c.chaddr.len() == 6).collect();
         match style {
             0 => addresses.push((written, lan.plen)),
+            9 => (), /* this LAN is not configured at all: nobody on it is served */
             1 => {
                 /* top-level addresses plus reservations carved out by an outer match-subnet policy */
                 addresses.push((written, lan.plen));
@@ -844,6 +848,7 @@ pub fn generate(seed: u64, opts: &GenOpts) -> PlanA {
                 extra,
                 xid,
                 must_answer: false,
+                split_opts: r.chance(0.06),
             })
         } else if pick(pf.w_clock) {
             StepKind::ClockJump(match r.below(6) {
@@ -928,6 +933,7 @@ pub fn generate(seed: u64, opts: &GenOpts) -> PlanA {
                         extra: vec![],
                         xid,
                         must_answer: true,
+                        split_opts: false,
                     }),
                 });
             }
@@ -1049,6 +1055,7 @@ pub fn generate_drain(seed: u64, large: bool) -> PlanA {
             extra: vec![],
             xid,
             must_answer: false,
+            split_opts: false,
         };
         steps.push(Step { at_ms: t, kind: StepKind::Dhcp(mk(1, AddrRef::None, 0x2000_0000 + 2 * i as u32)) });
         if two_phase {
@@ -1152,6 +1159,7 @@ pub fn generate_small(seed: u64, images: bool) -> PlanA {
                 extra: vec![],
                 xid,
                 must_answer: false,
+                split_opts: false,
             }),
         });
     }
@@ -1250,7 +1258,7 @@ pub fn generate_acl_http(seed: u64, thorough: bool) -> PlanA {
     let clients = vec![ClientSpec { chaddr: vec![2, 0, 0, 0, 0x31, 1], client_id: None, hostname: Some(b"acl".to_vec()), lan: 0 }];
     steps.push(Step {
         at_ms: t,
-        kind: StepKind::Dhcp(MsgSpec { client: 0, lan: 0, mtype: Some(1), ciaddr: AddrRef::None, requested: AddrRef::None, server_id: None, flags: 0, giaddr: None, with_client_id: false, with_hostname: true, param_list: vec![1, 51, 54], extra: vec![], xid: 0x4000_0001, must_answer: false }),
+        kind: StepKind::Dhcp(MsgSpec { client: 0, lan: 0, mtype: Some(1), ciaddr: AddrRef::None, requested: AddrRef::None, server_id: None, flags: 0, giaddr: None, with_client_id: false, with_hostname: true, param_list: vec![1, 51, 54], extra: vec![], xid: 0x4000_0001, must_answer: false, split_opts: false }),
     });
     for _ in 0..r.range(8, if thorough { 40 } else { 20 }) {
         t += r.range(5, 5000);
